@@ -1,6 +1,7 @@
 use crate::{LonelyBlockHash, UnverifiedBlock};
 use ckb_channel::{Receiver, Sender};
-use ckb_logger::{debug, info};
+use ckb_error::InternalErrorKind;
+use ckb_logger::{debug, error, info};
 use ckb_shared::Shared;
 use ckb_store::ChainStore;
 use crossbeam::select;
@@ -53,7 +54,9 @@ impl PreloadUnverifiedBlocksChannel {
     fn preload_unverified_channel(&self, task: LonelyBlockHash) {
         let block_number = task.block_number_and_hash.number();
         let block_hash = task.block_number_and_hash.hash();
-        let unverified_block: UnverifiedBlock = self.load_full_unverified_block_by_hash(task);
+        let Some(unverified_block) = self.load_full_unverified_block_by_hash(task) else {
+            return;
+        };
 
         if let Some(metrics) = ckb_metrics::handle() {
             metrics
@@ -70,7 +73,7 @@ impl PreloadUnverifiedBlocksChannel {
         }
     }
 
-    fn load_full_unverified_block_by_hash(&self, task: LonelyBlockHash) -> UnverifiedBlock {
+    fn load_full_unverified_block_by_hash(&self, task: LonelyBlockHash) -> Option<UnverifiedBlock> {
         let _trace_timecost = ckb_metrics::handle()
             .map(|metrics| metrics.ckb_chain_load_full_unverified_block.start_timer());
 
@@ -82,11 +85,26 @@ impl PreloadUnverifiedBlocksChannel {
             verify_callback,
         } = task;
 
-        let block_view = self
-            .shared
-            .store()
-            .get_block(&block_number_and_hash.hash())
-            .expect("block stored");
+        let Some(block_view) = self.shared.store().get_block(&block_number_and_hash.hash()) else {
+            // The same hash may be queued more than once (delivered by several peers). When an
+            // earlier entry fails the verification the block is deleted, and the entries behind
+            // it find nothing to load: the block is already handled.
+            error!(
+                "block {}-{} has been deleted since it was queued, skip it",
+                block_number_and_hash.number(),
+                block_number_and_hash.hash()
+            );
+            if let Some(verify_callback) = verify_callback {
+                verify_callback(Err(InternalErrorKind::Other
+                    .other(format!(
+                        "block {}-{} has been deleted since it was queued: it failed the verification",
+                        block_number_and_hash.number(),
+                        block_number_and_hash.hash()
+                    ))
+                    .into()));
+            }
+            return None;
+        };
         let block = Arc::new(block_view);
         let parent_header = {
             self.shared
@@ -95,11 +113,11 @@ impl PreloadUnverifiedBlocksChannel {
                 .expect("parent header stored")
         };
 
-        UnverifiedBlock {
+        Some(UnverifiedBlock {
             block,
             switch,
             verify_callback,
             parent_header,
-        }
+        })
     }
 }
